@@ -1,5 +1,8 @@
-/- C02 — property theorems. -/
-import AttrsModel.Spec.C02
+/-
+  C02 — property theorems: the init protocol (order, exactly-once, arguments, failure propagation)
+  for arbitrary field lists, call shapes and fault positions.  Helper lemmas are in Proofs/Init*.lean.
+-/
+import AttrsModel.Proofs.InitWf
 
 namespace Attrs.C02
 open Attrs.Init
@@ -8,9 +11,117 @@ open Attrs.Init
     `__setattr__` has no hook for that name — `has_on_setattr` (in `_attrs_to_init_script`) and `sa_attrs`
     (in `add_setattr`) are computed in different functions and must agree. -/
 theorem C02_no_hooks_static (cfg : Cfg) (belief : Bool) (a : Attr)
-    (h : tech cfg belief a = .assign) : inSaAttrs cfg a = false := by
-  unfold tech hasOnSetattr at h
-  unfold inSaAttrs
-  grind
+    (h : tech cfg belief a = .assign) : inSaAttrs cfg a = false :=
+  tech_assign_no_hook cfg belief a h
+
+/-- the hypotheses of the body theorem follow from the decidable `wf` and the absence of known findings -/
+theorem bodyOK (c : Case) (hwf : wf c = true) (hk : known c = []) : BodyOK c.eff c.call := by
+  unfold wf at hwf
+  simp only [Bool.and_eq_true] at hwf
+  have h1 := bodyOK_of_wf { c with run := { c.run with fault := none } } hwf.1
+    (by simpa [known, C01.known, C01.misplaced, Case.eff, RunIn.belief] using hk) hwf.2
+  exact ⟨h1.bind, h1.nodup, h1.cacheName, h1.visible⟩
+
+/-- **C02_trace / C02_fault_prefix**: for every class, call and failing callback (in particular "exactly the
+    k-th", for every k), the trace of the modelled initializer is the declarative fault-free trace
+    `[pre] ++ per field (factory? ++ converter?) ++ validators (while enabled) ++ [post]` cut after the first
+    failing event: nothing later runs. -/
+theorem C02_fault_prefix (c : Case) (hwf : wf c = true) (hk : known c = []) :
+    (runInit c).trace = cutAt c.eff.fault (expectedTrace c.eff c.call) :=
+  (runInit_spec c (bodyOK c hwf hk)).2.2.1
+
+/-- **C02_trace**: without a fault the trace is exactly the declarative trace. -/
+theorem C02_trace (c : Case) (hwf : wf c = true) (hk : known c = []) (hf : c.run.fault = none) :
+    (runInit c).trace = expectedTrace c.eff c.call := by
+  rw [C02_fault_prefix c hwf hk]
+  simp [hf, cutAt_none]
+
+/-- **C02_exception_propagates**: the call raises iff the failing callback is part of the trace, and then it
+    is that callback's exception; otherwise it returns. -/
+theorem C02_exception_propagates (c : Case) (hwf : wf c = true) (hk : known c = []) :
+    (runInit c).exc = (if hits c.eff.fault (expectedTrace c.eff c.call) then some .user else none) :=
+  (runInit_spec c (bodyOK c hwf hk)).2.2.2.1
+
+/-- **C02_no_later_store**: a field holds its value iff no callback failed before its store. -/
+theorem C02_no_later_store (c : Case) (hwf : wf c = true) (hk : known c = []) :
+    (runInit c).values = c.eff.attrs.map (fun a =>
+      (a.name, if hits c.eff.fault (eventsUpTo c.eff c.call a) then none
+               else C01.expectedValue c.eff.attrs c.call a)) :=
+  (runInit_spec c (bodyOK c hwf hk)).2.2.2.2.1
+
+/-- **C02_exc_args**: for auto_exc exception classes `args` is the tuple of the init fields' stored values. -/
+theorem C02_exc_args (c : Case) (hwf : wf c = true) (hk : known c = []) :
+    (runInit c).excArgs = (if c.eff.cfg.isExc && !hits c.eff.fault (expectedTrace c.eff c.call) then
+        some (((c.eff.attrs.filter participates).filter (·.init)).map
+          (fun a => convApply a (C01.rawOf c.eff.attrs c.call a)))
+      else none) :=
+  (runInit_spec c (bodyOK c hwf hk)).2.2.2.2.2
+
+/-- every event of a per-field block carries that field's name and is a factory or converter call -/
+theorem C02_attr_events_named (attrs : List Attr) (c : Call) (a : Attr) :
+    ∀ e ∈ attrEvents attrs c a, e.id.field = a.name ∧ (e.id.kind = "factory" ∨ e.id.kind = "conv") := by
+  intro e he
+  unfold attrEvents at he
+  dsimp only at he
+  rcases List.mem_append.1 he with h | h
+  · split at h
+    · simp only [List.mem_singleton] at h; simp [h, ev]
+    · cases h
+  · split at h
+    · simp only [List.mem_singleton] at h; simp [h, ev]
+    · cases h
+
+theorem cutAt_subset (f : Option EventId) (es : List Event) : ∀ e ∈ cutAt f es, e ∈ es := by
+  induction es with
+  | nil => simp [cutAt]
+  | cons x xs ih =>
+    intro e he
+    simp only [cutAt] at he
+    split at he
+    · simp only [List.mem_singleton] at he; simp [he]
+    · rcases List.mem_cons.1 he with h | h
+      · simp [h]
+      · exact List.mem_cons_of_mem _ (ih e h)
+
+/-- the callbacks a construction can run are pre-init, factories, converters, validators and post-init -/
+theorem expectedTrace_kinds (r : RunIn) (c : Call) :
+    ∀ e ∈ expectedTrace r c, e.id.kind ∈ ["pre", "factory", "conv", "validator", "post"] := by
+  intro e he
+  unfold expectedTrace at he
+  rcases List.mem_append.1 he with h123 | h4
+  · rcases List.mem_append.1 h123 with h12 | h3
+    · rcases List.mem_append.1 h12 with h1 | h2
+      · unfold preEvents at h1
+        cases hp : r.cfg.pre <;> simp [hp, ev] at h1 <;> simp [h1]
+      · obtain ⟨a, _, ha⟩ := List.mem_flatMap.1 h2
+        rcases (C02_attr_events_named _ _ _ e ha).2 with h | h <;> simp [h]
+    · split at h3
+      · unfold validatorEventsOf at h3
+        obtain ⟨a, _, ha⟩ := List.mem_flatMap.1 h3
+        obtain ⟨i, _, hi⟩ := List.mem_map.1 ha
+        simp [← hi, ev]
+      · cases h3
+  · split at h4
+    · simp only [List.mem_singleton] at h4; simp [h4, ev]
+    · cases h4
+
+/-- **C02_no_hooks**: no `hook` event occurs in any construction trace, for any combination of field-level
+    and class-level `on_setattr`, with or without a failing callback. -/
+theorem C02_no_hooks (c : Case) (hwf : wf c = true) (hk : known c = []) :
+    ∀ e ∈ (runInit c).trace, e.id.kind ≠ "hook" := by
+  rw [C02_fault_prefix c hwf hk]
+  intro e he
+  have := expectedTrace_kinds _ _ e (cutAt_subset _ _ e he)
+  intro hh
+  rw [hh] at this
+  simp at this
+
+/-- **C02_model_meets_spec**: the model satisfies the declarative specification for every well-formed case
+    outside the listed known finding. -/
+theorem C02_model_meets_spec (c : Case) (hwf : wf c = true) (hk : known c = []) :
+    spec c (model c) = true := by
+  obtain ⟨_, _, h3, h4, h5, h6⟩ := runInit_spec c (bodyOK c hwf hk)
+  unfold spec model
+  simp only [h3, h4, h5, h6, specValues, beq_self_eq_true, Bool.and_self]
 
 end Attrs.C02
